@@ -35,7 +35,7 @@ CONFIG = {
     'thorough': {'shards': 32, 'cases': 1080, 'timeout': 5400, 'floor': 10800},
 }
 REQUIRED = ['addstore_steps', 'steps_reusing_sampler_object', 'crash_reopen_steps', 'steps', 'reuse_steps', 'results_compared', 'call_counters_checked', 'pool_batches_compared', 'context_refusals_checked',
-            'pool_memory', 'pool_disk', 'edit_steps', 'scheduled_steps', 'steps_loading_from_pool', 'column_major_simulator_cases', 'smc_pool_reruns_multi_round']
+            'pool_memory', 'pool_disk', 'edit_steps', 'scheduled_steps', 'steps_loading_from_pool', 'column_major_simulator_cases', 'smc_pool_reruns_multi_round', 'context_refusals_on_unused_pool_checked']
 
 KNOWN_KEY = 'stochastic-node-rerun-after-pool-loaded-prior'
 
@@ -453,6 +453,24 @@ def run_case(ctx, case):
                 except ValueError:
                     continue
                 raise Violation('foreign-context-accepted', 'pool accepted %s although created with batch_size=%d seed=%d' % (kw, case['bs'], case['seed']))
+        # the same on a pool that has been handed to an inference object but has not received a batch yet (two samplers set up
+        # over one new pool before either runs): the pool belongs to the first one's batch_size and seed from that moment
+        for fresh in ([elfi.OutputPool(list(case['stored']))] + ([elfi.ArrayPool(list(case['stored']), name='q', prefix=tmp)] if case['disk'] else [])):
+            m2 = _build(spec, {'summ': {}, 'disc': 0})
+            elfi.Rejection(m2['d'], batch_size=case['bs'], seed=case['seed'], pool=fresh)
+            for kw in ({'batch_size': case['bs'] + 1, 'seed': case['seed']}, {'batch_size': case['bs'], 'seed': case['seed'] + 1}):
+                ctx.event('context_refusals_on_unused_pool_checked')
+                try:
+                    elfi.Rejection(m2['d'], pool=fresh, **kw)
+                except ValueError:
+                    continue
+                raise Violation('foreign-context-accepted', 'a pool already given to a sampler with batch_size=%d seed=%d (no batch stored yet) accepted a '
+                                'second sampler with %s' % (case['bs'], case['seed'], kw))
+            if hasattr(fresh, 'delete'):
+                try:
+                    fresh.delete()
+                except Exception:
+                    pass
         ctx.nontrivial(nontrivial)
     finally:
         try:
